@@ -114,6 +114,11 @@ b("B21", TX, None, None, "rename tx_vec -> entries in tx.rs (whole file)")
 # 22. Owner API method binds the mask to a local first
 b("B22", "api/src/owner.rs", None, None, "Owner::cancel_tx binds keychain_mask to a local before use")
 
+b("B23", SEL, None, None, "rename local `change` -> `leftover` in selection.rs (word-boundary, whole file)")
+b("B24", TX, None, None, "rename parameter use_test_rng -> test_mode in tx.rs (whole file)")
+b("B25", UPD, None, None, "rename reverted_total -> rev_sum and locked_total -> held_sum in updater.rs")
+b("B26", FOREIGN, None, None, "rename parameter slate -> incoming in foreign.rs finalize_tx/receive_tx (word-boundary, whole file)")
+
 
 def _apply(mu, repo_copy):
     p = os.path.join(repo_copy, mu["file"])
@@ -133,6 +138,21 @@ def _apply(mu, repo_copy):
             return "anchor text occurs %d times" % src.count(old)
         src = src.replace(old, "\trefuse_expired(w, &sl)?;")
         src += "\nfn refuse_expired<'a, T: ?Sized, C, K>(w: &mut T, slate: &Slate) -> Result<(), Error>\nwhere\n\tT: WalletBackend<'a, C, K>,\n\tC: NodeClient + 'a,\n\tK: Keychain + 'a,\n{\n\tcheck_ttl(w, slate)?;\n\tOk(())\n}\n"
+    elif bid == "B23":
+        import re
+        src, n = re.subn(r"\bchange\b", "leftover", src)
+        assert n >= 5
+    elif bid == "B24":
+        import re
+        src, n = re.subn(r"\buse_test_rng\b", "test_mode", src)
+        assert n >= 5
+    elif bid == "B25":
+        assert src.count("reverted_total") >= 3 and src.count("locked_total") >= 3
+        src = src.replace("reverted_total", "rev_sum").replace("locked_total", "held_sum")
+    elif bid == "B26":
+        import re
+        src, n = re.subn(r"\bslate\b(?!::)", "incoming", src)
+        assert n >= 5
     elif bid == "B21":
         assert src.count("tx_vec") >= 4
         src = src.replace("tx_vec", "entries")
